@@ -88,6 +88,10 @@ class ProxyWorld:
         static = {"prefix": cfg.get("static_prefix", "/"), "handler": "static", "document_root": self.docroot}
         order = cfg["order"]
         locs = [proxy, static] if order == "proxy-first" else ([static, proxy] if order == "static-first" else [proxy])
+        if cfg.get("second_proxy"):
+            sp = cfg["second_proxy"]
+            second = {"prefix": sp["prefix"], "handler": "proxy", "upstream": self.upstream_url(dict(cfg, base=sp.get("base", cfg["base"]))), "strip_prefix": sp["strip"], "timeout": timeout}
+            locs = [proxy, second, static] if sp.get("position", "after") == "after" else [second, proxy, static]
         data = {"server": {"host": "127.0.0.1", "port": 1965, "document_root": self.docroot}, "rate_limit": {"enabled": False}, "locations": locs}
         path = os.path.join(self.base, "proxy.toml")
         with open(path, "wb") as f:
@@ -128,6 +132,10 @@ CONFIGS = [
     {"prefix": "/api/", "strip": True, "base": "", "order": "static-first", "static_prefix": "/api/info"},
     {"prefix": "/api/", "strip": True, "base": "", "order": "static-first"},
     {"prefix": "/", "strip": True, "base": "/root", "order": "proxy-only"},
+    # two proxy locations that name the same upstream but map differently
+    {"prefix": "/v1/", "strip": False, "base": "", "order": "proxy-first", "second_proxy": {"prefix": "/v2/", "strip": True}},
+    {"prefix": "/v1/", "strip": True, "base": "", "order": "proxy-first", "second_proxy": {"prefix": "/v2/", "strip": False, "position": "before"}},
+    {"prefix": "/api/", "strip": True, "base": "/b", "order": "proxy-first", "second_proxy": {"prefix": "/a/b/", "strip": False, "base": "/b"}},
 ]
 
 
@@ -137,6 +145,14 @@ def expected_route(cfg, locs, path):
         if p.startswith(loc["prefix"]):
             return loc["handler"]
     return "default-404"
+
+
+def matched_location(locs, path):
+    p = path or "/"
+    for loc in locs:
+        if p.startswith(loc["prefix"]):
+            return loc
+    return None
 
 
 def map_path(cfg, path):
@@ -157,6 +173,8 @@ def gen_request(rng, world, cfg, srv_port):
     decoy = f"127.0.0.1:{d.port}"
     host = f"127.0.0.1:{srv_port}"
     prefix = cfg["prefix"]
+    if cfg.get("second_proxy") and rng.random() < 0.5:
+        prefix = cfg["second_proxy"]["prefix"]
     pfx = prefix if prefix != "/" else "/"
     r = rng.random()
     if r < 0.3:
@@ -229,7 +247,7 @@ def run(ctx):
                     status = int(r["data"][:2]) if r["data"][:2].isdigit() else None
                     wit = {"config": cfg, "locations": [f"{l['handler']}:{l['prefix']}" for l in locs], "request_line": line, "feature": feat, "downstream": r["data"][:160],
                            "upstream_lines": [u.get("request_line") for u in up_recs], "socket_events": [(e["ev"], e.get("addr") or (e.get("host"), e.get("port"))) for e in events][:8]}
-                    shape = f"prefix={cfg['prefix']}:strip={cfg['strip']}:base={cfg['base'] or '-'}:order={cfg['order']}"
+                    shape = f"prefix={cfg['prefix']}:strip={cfg['strip']}:base={cfg['base'] or '-'}:order={cfg['order']}" + (f":second={cfg['second_proxy']['prefix']}/{cfg['second_proxy']['strip']}" if cfg.get("second_proxy") else "")
                     # ---- 1. only the upstream is contacted
                     ctx.count("monitor", "socket_events_checked", len(events))
                     for e in events:
@@ -256,8 +274,10 @@ def run(ctx):
                         else:
                             ctx.count("monitor", "upstream_lines_checked")
                             got = up_recs[0].get("request_line") or b""
-                            mp = map_path(cfg, info["path"])
-                            exp = f"gemini://127.0.0.1:{world.upstream.port}{cfg['base'].rstrip('/')}{mp}"
+                            loc = matched_location(locs, info["path"])
+                            mp = map_path({"prefix": loc["prefix"], "strip": loc["strip_prefix"]}, info["path"])
+                            base_path = loc["upstream"].split("://", 1)[1].partition("/")[2]
+                            exp = f"gemini://127.0.0.1:{world.upstream.port}{('/' + base_path).rstrip('/') if base_path else ''}{mp}"
                             if info["query"]:
                                 exp += "?" + info["query"]
                             elif info["has_query"]:
